@@ -630,12 +630,13 @@ def _isin(element, test_elements, assume_unique=False, invert=False):
             test_elements = test_elements.m_as(element.units)
         except DimensionalityError:
             # Incompatible unit test elements cannot be in element
-            return np.full(element.shape, False)
+            return np.full(element.shape, bool(invert))
     elif _is_sequence_with_quantity_elements(test_elements):
         compatible_test_elements = []
         for test_element in test_elements:
             if not _is_quantity(test_element):
-                pass
+                # Consider non-quantity like dimensionless quantity
+                test_element = element._REGISTRY.Quantity(test_element)
             try:
                 compatible_test_elements.append(test_element.m_as(element.units))
             except DimensionalityError:
@@ -647,7 +648,7 @@ def _isin(element, test_elements, assume_unique=False, invert=False):
         # Consider non-quantity like dimensionless quantity
         if not element.dimensionless:
             # Unit do not match, so all false
-            return np.full(element.shape, False)
+            return np.full(element.shape, bool(invert))
         else:
             # Convert to units of element
             element._REGISTRY.Quantity(test_elements).m_as(element.units)
